@@ -27,9 +27,9 @@ crate::cnt_types_t!(ctc_t);
 #[kani::proof]
 #[kani::unwind(8)]
 pub fn c19q_direct_reads() {
-	let bytes: [u8; 6] = kani::any();
+	let bytes: [u8; 10] = kani::any();
 	let len: usize = kani::any();
-	kani::assume(len <= 6);
+	kani::assume(len <= 10);
 	let mut s = &bytes[..len];
 	let mut c = CountedInput::new(&mut s);
 	assert!(c.count() == 0);
@@ -121,4 +121,44 @@ pub fn c19n_twin_count_is_input_len() {
 	let mut c = CountedInput::new(&mut s);
 	let _ = u16::decode(&mut c);
 	assert!(c.count() == 3);
+}
+
+/// the counter is a running total over the wrapper's whole life: after a FAILED read (which delivers nothing from a slice)
+/// later successful reads are still counted; raw read()/read_byte() calls and decodes may be mixed
+#[kani::proof]
+#[kani::unwind(12)]
+pub fn c19q_success_after_failure_is_counted() {
+	use parity_scale_codec::{CountedInput, Decode, Input};
+	let bytes: [u8; 10] = kani::any();
+	let len: usize = kani::any();
+	kani::assume(len <= 10);
+	let mut s = &bytes[..len];
+	let mut c = CountedInput::new(&mut s);
+	let r1 = u32::decode(&mut c);                    // fails iff len < 4, delivering nothing
+	let r2 = u16::decode(&mut c);
+	let mut one = [0u8; 1];
+	let r3 = c.read(&mut one);
+	let r4 = c.read_byte();
+	let r5 = <(u8, u16)>::decode(&mut c);            // may deliver one byte and then fail
+	let cnt = c.count();
+	assert!(cnt == (len - s.len()) as u64, "count differs from the bytes delivered over a sequence of reads with failures in between");
+	kani::cover!(r1.is_err() && r2.is_ok(), "reach: success after failure");
+	kani::cover!(r1.is_ok() && r2.is_ok() && r3.is_err(), "reach: failure after successes");
+	kani::cover!(r4.is_ok() && r5.is_err(), "reach: partial tuple");
+}
+#[kani::proof]
+#[kani::unwind(10)]
+pub fn c19q_success_after_failure_unknown_length() {
+	use parity_scale_codec::{CountedInput, Decode, Input};
+	let bytes: [u8; 5] = kani::any();
+	let len: usize = kani::any();
+	kani::assume(len <= 5);
+	let mut u = Unk(&bytes[..len]);
+	let mut c = CountedInput::new(&mut u);
+	let r1 = <[u8; 3]>::decode(&mut c);
+	let r2 = u8::decode(&mut c);
+	let r3 = u16::decode(&mut c);
+	let cnt = c.count();
+	assert!(cnt == (len - u.0.len()) as u64, "count differs from the bytes an unknown-length input delivered over several reads");
+	kani::cover!(r1.is_err() && r2.is_ok(), "reach: success after failure");
 }
